@@ -312,6 +312,8 @@ DecodeValueEv(e) ==
     /\ Chk(e, "C05", "accepts_well_formed_value", spec.ok => okc)
     /\ Chk(e, "C05", "consumes_value", (spec.ok /\ okc) => o.n = spec.n)
     /\ Chk(e, "C05", "reference_value", (spec.ok /\ okc) => SameValue(o.v, spec.v))
+    /\ Chk(e, "C08", "terminates_within_step_budget", o.r # "budget")
+    /\ Chk(e, "C08", "steps_linear_in_input", e.steps <= 16 * Len(e.b) + 256)
     /\ Chk(e, "C05", "unrepresentable_timestamp_refused",
            (e.pos = "top" /\ Len(e.b) = 9 /\ e.b[1] = Tg.T /\ ~spec.ok) => o.r = "exc")
     /\ UNCHANGED << legacy, tz >>
